@@ -1,5 +1,6 @@
 """C01 — trusted chain state changes only on a fully verified last-state proof (DESIGN §5 C01)."""
 from engine.rules import Inconclusive
+import re
 from engine.defuse import DefUse
 
 EXPLANATION = (
@@ -177,6 +178,41 @@ def run(ctx):
     ctx.ob('C01.r5', FH.name, 'peer headers served to get_header / verification come only from the prove state', pcalls == ['PeerState::get_prove_state'], peer_state_reads=pcalls)
     # reviewed reference of the checker functions' decision structure (engine/census.py)
     from rules import census_fns
+    # r6 (F61-F63): shape of what is committed
+    Xb0 = ctx.body(EXEC)
+    xdu = DefUse(Xb0)
+    def _is_pair_with_last(t):
+        # the argument is built from clones (not a slice of the headers vector), one of them of the last header
+        org = xdu.origins(t.args[0])
+        cl = [o for o in org if o[0] == 'call' and o[1].endswith('Clone>::clone')]
+        if not cl or any(o[0] == 'call' and o[1].endswith('Index>::index') for o in org):
+            return False
+        for o in cl:
+            ct = Xb0.blocks[o[2]].term
+            if any(x[0] == 'call' and x[1].endswith('SendLastStateProofReader::last_header') for x in xdu.origins(ct.args[0], stop_at_calls=False)) and \
+                    any(x[0] == 'call' and x[1].endswith('VerifiableHeader::header') for x in xdu.origins(ct.args[0])):
+                return True
+        return False
+    tail = [(b, t) for b, t in P.call_sites(Xb0, 'check_continuous_headers') if _is_pair_with_last(t)]
+    ctx.ob('C01.r6', EXEC, 'the last header is checked to be the child of the last-N headers before the proof is committed', bool(tail),
+           failing_history=None if tail else 'SendLastState(8\') with parent_hash = hash(3) (made by the peer); the honest [0,8) response + proof is accepted, 8\' becomes the proved tip')
+    if tail:
+        ctx.guard('C01.r6', Xb0, lambda k, t, _ts=[t for _, t in tail]: any(t is x for x in _ts), 'Ok', ctx.sites(Xb0, COMMIT, 1), unconditional=False,
+                  gname='check_continuous_headers([last of last-N, last header])')
+    Xb = ctx.body(EXEC)
+    flt = [c for c in P.closures_of(Xb, transitive=False)
+           if any(k.endswith('HeaderView::number') for _, k, _ in P.call_keys(c))
+           and any(st.kind == 'assign' and st.lhs.strip() == '_0' and re.match(r'^Lt\(', (st.rhs or '').strip()) for blk in c.blocks.values() if not blk.cleanup for st in blk.stmts)]
+    flt += [c2 for c in P.closures_of(Xb, transitive=False) for c2 in P.closures_of(c, transitive=False)
+            if any(k.endswith('HeaderView::number') for _, k, _ in P.call_keys(c2))
+            and any(st.kind == 'assign' and st.lhs.strip() == '_0' and re.match(r'^Lt\(', (st.rhs or '').strip()) for blk in c2.blocks.values() if not blk.cleanup for st in blk.stmts)]
+    ctx.ob('C01.r6', EXEC, 'previous last headers are prepended only below the first new last-N header (no repeated or replaced heights in the remembered headers)', bool(flt),
+           failing_history=None if flt else 'last_n = 10; block 5 proved, then block 8 (request starts at an older remembered block): remembered headers [3,4,0,1,..,7]; after a short fork '
+           'the leading 3,4 are replaced blocks still served by get_header')
+    CMb = ctx.body('check_if_response_is_matched')
+    census_fns.requires(ctx, 'C01.r6', 'check_if_response_is_matched', r'^Err\(Status::InvalidReorgHeaders\)', r'arg1 < TakeWhile::count|TakeWhile::count\(.*\) > arg1',
+                        'a reorg section longer than last-N is rejected (also when it starts at block 1)',
+                        'last_n = 3, start 15: reorg headers [1..14] accepted and all 14 kept in the prove state')
     census_fns.run(ctx, 'C01')
 
 
